@@ -195,23 +195,30 @@ def run(ctx):
                 trunc_bad.append((sc, "%s: the send failed (%s) but the server was handed a terminated DATA phase of %d octets that is not the %d-octet message" % (sc["flavor"], res[:60], len(unit), len(tmsg))))
     # ---- a stream supplied by the caller (connect_with_transport) that takes k octets of the content and answers the next write with
     #      ErrorKind::Interrupted: the send either fails without a terminated DATA phase, or the server is handed exactly the message
-    imsg = b"first line\r\n.dot line\r\nthird line of the message\r\n" * 40
+    imsg = imsg0 = b"first line\r\n.dot line\r\nthird line of the message\r\n" * 40
     iscs = []
     for k in (None, 0, 1, 2, 11, 12, 13, 500, 100000):
         script = [step("none", b"220 hi\r\n"), step("line", b"250-srv\r\n250 8BITMIME\r\n"), step("line", b"250 ok\r\n"), step("line", b"250 ok\r\n"),
                   step("line", b"354 go\r\n"), step("data", b"250 queued\r\n"), step("line", b"221 bye\r\n")]
         iscs.append({"id": 600000 + len(iscs), "flavor": "tokio", "timeout_ms": 1500, "server_cap_ms": 2500, "hang_ms": 20000, "servers": [script], "k": k,
                      "ops": [{"op": "connect_wrapped", "hello": hx(b"c03.test"), "k": k}, {"op": "send", "from": hx(b"a@x.org"), "to": [hx(b"b@y.org")], "msg": hx(imsg)}]})
+    # ... and on a caller-supplied stream that keeps what is written until it is flushed (k = "buffered"): several messages, dots at line starts
+    for bm in (imsg, b".\r\n", b"x", b"a\r\n.\r\nb\r\n" * 3000):
+        script = [step("none", b"220 hi\r\n"), step("line", b"250-srv\r\n250 8BITMIME\r\n"), step("line", b"250 ok\r\n"), step("line", b"250 ok\r\n"),
+                  step("line", b"354 go\r\n"), step("data", b"250 queued\r\n"), step("line", b"221 bye\r\n")]
+        iscs.append({"id": 600000 + len(iscs), "flavor": "tokio", "timeout_ms": 1500, "server_cap_ms": 2500, "hang_ms": 8000, "servers": [script], "k": None, "buffered": True, "msg_hex": hx(bm),
+                     "ops": [{"op": "connect_wrapped", "hello": hx(b"c03.test"), "k": None, "buffered": True}, {"op": "send", "from": hx(b"a@x.org"), "to": [hx(b"b@y.org")], "msg": hx(bm)}]})
     for sc, r in zip(iscs, run_scenarios(iscs, threads=4)):
-        ctx.count(); ctx.cls("interrupted-write")
+        imsg = unhx(sc["msg_hex"]) if "msg_hex" in sc else imsg0
+        ctx.count(); ctx.cls("buffered-stream" if sc.get("buffered") else "interrupted-write")
         srv = (r.get("servers") or [None])[0]
         Rs = events_R(srv) if srv else []
         res = str((r.get("results") or ["", ""])[1]) if isinstance(r.get("results"), list) else str(r.get("results", r.get("error")))
         unit = Rs[4] if len(Rs) > 4 else None
         got = (b"\r\n".join(l[1:] if l.startswith(b".") else l for l in unit[:-5].split(b"\r\n")) + b"\r\n") if unit is not None else None
         if res in ("HANG", "PANIC") or (sc["k"] is None and not res.startswith("ok")) or (got is not None and got != imsg + b"\r\n") or (res.startswith("ok") and got is None):
-            trunc_bad.append((sc, "tokio client on a caller-supplied stream that interrupts a write after %s octets of the content: the send returned %s and the server was handed %s" % (
-                sc["k"], res[:60], "no terminated DATA phase" if got is None else ("the message" if got == imsg + b"\r\n" else "a terminated DATA phase of %d octets that is not the %d-octet message" % (len(got), len(imsg))))))
+            trunc_bad.append((sc, "tokio client on a caller-supplied stream that %s: the send returned %s and the server was handed %s" % (
+                "keeps what is written until it is flushed" if sc.get("buffered") else "interrupts a write after %s octets of the content" % sc["k"], res[:60], "no terminated DATA phase" if got is None else ("the message" if got == imsg + b"\r\n" else "a terminated DATA phase of %d octets that is not the %d-octet message" % (len(got), len(imsg))))))
     ctx.cov["oracle"]["interrupted_write_on_a_supplied_stream"] = {"cases": len(iscs)}
     ctx.cov["oracle"]["no_marker_after_a_failed_content_write"] = {"cases": len(tscs), "failures": len(trunc_bad)}
     if trunc_bad:
